@@ -36,6 +36,12 @@ Part B (integrity): wrap worlds with a corruption class at a location, a recorde
   urlopen under nodownload.  After each run: a failed run leaves no subprojects/<dir>, the cache holds no
   unverified bytes under a final name, a successful (second) run has the complete tree.  Source trees with a
   dangling symlink, a symlink to a directory and read-only entries are combined with every patch/diff fault.
+  Two processes on ONE source tree: the first is held (a `patch` on PATH that waits for a marker file; a wrapper at the
+  entry of Resolver.apply_patch / apply_diff_files) between unpack and the end of patch/diff, a second one resolves
+  the same wrap meanwhile.  Ordering is decided through marker files only: the first is let go when the second has
+  finished or has published that it issues a blocking lock request.  What the second (and a third, later) run ACCEPTS -
+  the tree at the return of Resolver.resolve, the marker its build file prints - is the fully prepared tree, or the
+  run fails; when the held step then fails no half-prepared directory remains.
 """
 from __future__ import annotations
 
@@ -58,17 +64,19 @@ PID = 'C10'
 _SCRATCH = ''     # set by main(); inherited by forked workers
 _BIN = ''
 _BIN_BADPATCH = ''
+_BIN_HOLDPATCH = ''
 
 
 # ====================================================================================================
 # scratch / PATH
 # ====================================================================================================
 def setup_scratch() -> None:
-    global _SCRATCH, _BIN, _BIN_BADPATCH
+    global _SCRATCH, _BIN, _BIN_BADPATCH, _BIN_HOLDPATCH
     _SCRATCH = common.scratch_dir('c10')
     _BIN = os.path.join(_SCRATCH, 'bin')
     _BIN_BADPATCH = os.path.join(_SCRATCH, 'bin-badpatch')
-    for d in (_BIN, _BIN_BADPATCH):
+    _BIN_HOLDPATCH = os.path.join(_SCRATCH, 'bin-holdpatch')
+    for d in (_BIN, _BIN_BADPATCH, _BIN_HOLDPATCH):
         os.makedirs(d)
         pc = shutil.which('pkg-config')
         if pc:
@@ -80,6 +88,22 @@ def setup_scratch() -> None:
     with open(shim, 'w', encoding='utf-8') as f:
         f.write('#!/bin/sh\necho "injected: patch fails" >&2\nexit 1\n')
     os.chmod(shim, 0o755)
+    # a `patch` that can be HELD: its n-th invocation (counted over all processes of a case through the marker
+    # directory $C10_HOLD_DIR) announces itself with `started.<n>` and goes on only when `release.<n>` exists:
+    # 'ok' -> the real patch does the work, anything else -> the step fails.  The loop bound is a watchdog only.
+    hold = os.path.join(_BIN_HOLDPATCH, 'patch')
+    with open(hold, 'w', encoding='utf-8') as f:
+        f.write('#!/bin/sh\nPATH=/usr/bin:/bin\n'
+                'd="$C10_HOLD_DIR"\nn=1\n'
+                'while ! mkdir "$d/started.$n" 2>/dev/null; do n=$((n+1)); [ $n -gt 50 ] && exit 98; done\n'
+                'i=0\n'
+                'while [ ! -e "$d/release.$n" ]; do\n'
+                '  sleep 0.02; i=$((i+1))\n'
+                '  if [ $i -gt 5000 ]; then echo "held patch: never released" >&2; exit 97; fi\n'
+                'done\n'
+                f'if [ "$(cat "$d/release.$n")" = ok ]; then exec {real_patch or "false"} "$@"; fi\n'
+                'echo "injected: patch fails" >&2\nexit 1\n')
+    os.chmod(hold, 0o755)
 
 
 def case_dir() -> str:
@@ -771,13 +795,254 @@ def b_specs(tier: str, rng: random.Random) -> T.List[dict]:
 
 
 # ====================================================================================================
+# Part B: two (then three) runs on ONE source tree, the first held between unpack and the end of patch/diff
+# ====================================================================================================
+def _bg_meson(resfile: str, argv: T.List[str], cwd: str, env: dict, monitors: list, timeout: float) -> int:
+    """Start runner.meson in a forked helper; the result arrives as JSON in `resfile` (atomically)."""
+    pid = os.fork()
+    if pid == 0:
+        try:
+            r = runner.meson(argv, cwd=cwd, env=env, monitors=monitors, timeout=timeout)
+            with open(resfile + '.tmp', 'w', encoding='utf-8') as f:
+                json.dump({'rc': r.rc, 'out': r.out, 'err': r.err, 'records': r.records, 'timed_out': r.timed_out,
+                           'traceback': r.traceback}, f)
+            os.rename(resfile + '.tmp', resfile)
+        finally:
+            os._exit(0)
+    return pid
+
+
+class _Bg:
+    def __init__(self, tag: str, root: str, argv: T.List[str], cwd: str, env: dict, monitors: list) -> None:
+        self.tag = tag
+        self.resfile = os.path.join(root, f'result-{tag}.json')
+        self.pid = _bg_meson(self.resfile, argv, cwd, env, monitors, 110.0)
+        self.reaped = False
+        self.res: T.Optional[dict] = None
+
+    def done(self) -> bool:
+        if not self.reaped:
+            wpid, _st = os.waitpid(self.pid, os.WNOHANG)
+            if wpid == self.pid:
+                self.reaped = True
+                try:
+                    with open(self.resfile, encoding='utf-8') as f:
+                        self.res = json.load(f)
+                except (OSError, ValueError):
+                    self.res = None
+        return self.reaped
+
+    def kill(self) -> None:
+        if not self.reaped:
+            try:
+                os.kill(self.pid, 9)
+                os.waitpid(self.pid, 0)
+            except OSError:
+                pass
+            self.reaped = True
+
+
+def _wait(cond: T.Callable[[], bool], watchdog: float) -> bool:
+    """Poll an ORDERING condition (marker file / process end). The bound is a watchdog: reaching it never decides
+    a verdict, the case is then counted as not judged."""
+    end = time.monotonic() + watchdog
+    while time.monotonic() < end:
+        if cond():
+            return True
+        time.sleep(0.01)
+    return cond()
+
+
+def run_concurrent_case(spec: dict) -> dict:
+    out: T.Dict[str, T.Any] = {'counts': {}, 'violations': [], 'key': common.digest(spec), 'cov': [],
+                               'inconclusive': None, 'sample': None, 'obs': []}
+    cnt = out['counts']
+
+    def c(k: str, n: int = 1) -> None:
+        cnt[k] = cnt.get(k, 0) + n
+    conc = spec['conc']
+    hold = conc['hold']                 # 'patchprog:<n>' | 'fn:apply_patch' | 'fn:apply_diff_files'
+    root = case_dir()
+    procs: T.List[_Bg] = []
+    try:
+        facts = G.b_build(root, spec)
+        runner.write_tree(root, facts.pop('files'))
+        src = os.path.join(root, 'src')
+        subdir = os.path.join(src, 'subprojects', facts['dirname'])
+        markdir = os.path.join(root, 'marks')
+        os.makedirs(markdir)
+        hold_key = hold.split(':', 1)[1] if hold.startswith('patchprog:') else 'fn'
+        for k in range(1, 13):          # every other invocation of the held `patch` goes straight through
+            if str(k) != hold_key:
+                M.touch_marker(markdir, f'release.{k}', 'ok')
+        env = {'PATH': _BIN_HOLDPATCH, 'C10_HOLD_DIR': markdir, 'MESON_FORCE_BACKTRACE': ''}
+
+        def argv_of(cmd: str, tag: str) -> T.List[str]:
+            return ['setup', '--backend=none', os.path.join(root, 'b' + tag)] if cmd == 'setup' else ['subprojects', 'download']
+
+        def mons(tag: str, hold_fn: T.Optional[str] = None) -> list:
+            return [M.make_wrap_monitor(facts['roles'], 'default', None),
+                    M.make_concurrency_monitor(markdir, tag, subdir, hold_fn=hold_fn)]
+        started = os.path.join(markdir, 'started.' + hold_key)
+        # ---- run A: up to the hold point --------------------------------------------------------------------
+        a = _Bg('A', root, argv_of(conc['cmd_a'], 'A'), src, env, mons('A', hold.split(':', 1)[1] if hold.startswith('fn:') else None))
+        procs.append(a)
+        _wait(lambda: os.path.exists(started) or a.done(), 100.0)
+        if not os.path.exists(started):
+            out['inconclusive'] = 'concurrent:hold-point-not-reached'
+            return out
+        c('monitor:hold-reached')
+        held_tree = M.tree_digest(subdir)
+        if held_tree != facts['expected_tree']:
+            c('C:held-tree-differs-from-prepared-tree')
+        # ---- run B: arrives while A is held; A goes on only when B is past helping or provably waits ---------
+        b = _Bg('B', root, argv_of(conc['cmd_b'], 'B'), src, env, mons('B'))
+        procs.append(b)
+        lockwait = os.path.join(markdir, 'B.lockwait')
+        decided = _wait(lambda: b.done() or os.path.exists(lockwait), 60.0)
+        b_done_while_held = b.reaped
+        if b_done_while_held:
+            c('C:second-run-finished-while-first-held')
+        elif decided:
+            c('monitor:second-run-waits-for-wraplock')
+        else:
+            c('C:watchdog-release')      # neither finished nor seen waiting: go on, judged by what it accepted only
+        M.touch_marker(markdir, 'release.' + hold_key, conc['release'])
+        if not _wait(lambda: all([a.done(), b.done()]), 115.0) or a.res is None or b.res is None \
+                or a.res['timed_out'] or b.res['timed_out']:
+            out['inconclusive'] = 'concurrent:watchdog'
+            return out
+        c('B:runs', 2)
+        expected = facts['expected_tree']
+        base = {'part': 'C', 'spec': spec, 'second_run_finished_while_first_held': b_done_while_held}
+
+        def brief(p: _Bg) -> dict:
+            return {'rc': p.res['rc'], 'out_tail': p.res['out'][-1200:], 'err_tail': p.res['err'][-400:],
+                    'events': [e for e in p.res['records'] if e['ev'] in ('wraplock', 'resolve-return', 'resolve-raise', 'hold', 'fault')]}
+
+        def judge_run(p: _Bg, who: str) -> bool:
+            """what a run ACCEPTED (at the return of Resolver.resolve, and what its build file printed)"""
+            ok = p.res['rc'] == 0 and not p.res['traceback']
+            for ev in p.res['records']:
+                c('monitor:' + ev['ev'])
+                if ev['ev'] == 'unpack':
+                    c('rule:unpack-on-verified-bytes')
+                    if ev['verdict'] not in ('ok', 'ok-hash-optional'):
+                        out['violations'].append((f"integrity:unpack-of-unverified-bytes:{ev['role']}:concurrent:{ev['verdict']}",
+                                                  dict(base, run=who, event=ev)))
+                elif ev['ev'] == 'resolve-return':
+                    c('rule:accepted-tree-is-fully-prepared')
+                    if ev['tree'] != expected:
+                        out['violations'].append((f'integrity:{who}-run-accepted-half-prepared-tree' +
+                                                  (':first-run-still-in-patch-step' if ev.get('first_run_still_held') else ''),
+                                                  dict(base, run=who, accepted=ev['tree'], expected=expected, **brief(p))))
+            if ok and p.res['out'].count('MARKER|'):
+                c('rule:configured-build-file-is-the-prepared-one')
+                got = re.findall(r'MARKER\|([^\n]*)', p.res['out'])
+                if facts.get('final_marker') and got[-1].strip() != facts['final_marker']:
+                    out['violations'].append((f'integrity:{who}-run-configured-half-prepared-tree',
+                                              dict(base, run=who, marker=got[-1], expected_marker=facts['final_marker'], **brief(p))))
+            return ok
+        a_ok = judge_run(a, 'first')
+        b_ok = judge_run(b, 'concurrent')
+        c('rule:concurrent-run-waits-or-fails')
+        if not b_ok:
+            c('obs:concurrent-run-failed')
+            out['obs'].append('concurrent-run-failed')
+        # the first run itself: released 'ok' it is the fault-free documented acquisition, released otherwise it fails
+        if conc['release'] == 'ok':
+            c('rule:documented-acquisition-succeeds')
+            if not a_ok:
+                out['violations'].append(('integrity:documented-acquisition-path-rejected', dict(base, run='first', **brief(a))))
+        else:
+            c('post:failed-run-dir-absent')
+            if a_ok:
+                out['violations'].append(('integrity:failed-patch-step-ignored', dict(base, run='first', **brief(a))))
+        # after both: the directory is absent or fully prepared (whoever made it)
+        c('post:no-half-prepared-directory-remains')
+        if os.path.isdir(subdir):
+            left = M.tree_digest(subdir)
+            if left != expected:
+                out['violations'].append(('integrity:concurrent-runs-left-half-prepared-directory',
+                                          dict(base, left=left, expected=expected, first=brief(a), concurrent=brief(b))))
+        elif a_ok or (b_ok and conc['cmd_b'] == 'setup'):
+            out['violations'].append(('integrity:success-without-subproject-directory', dict(base, first=brief(a), concurrent=brief(b))))
+        # ---- a third, fault-free run ----------------------------------------------------------------------
+        env3 = {'PATH': _BIN, 'MESON_FORCE_BACKTRACE': ''}
+        r3 = runner.meson(argv_of('setup', 'C'), cwd=src, env=env3, monitors=mons('C'), timeout=120)
+        if r3.timed_out:
+            out['inconclusive'] = 'timeout'
+            return out
+        c('B:runs')
+        third = _Bg.__new__(_Bg)
+        third.res = {'rc': r3.rc, 'out': r3.out, 'err': r3.err, 'records': r3.records, 'traceback': r3.traceback}
+        t_ok = judge_run(third, 'third')
+        c('post:successful-run-tree-complete')
+        if not t_ok:
+            out['violations'].append(('integrity:run-after-concurrent-runs-rejected', dict(base, **brief(third))))
+        elif M.tree_digest(subdir) != expected:
+            out['violations'].append(('integrity:configured-half-prepared-tree:after-concurrent-runs',
+                                      dict(base, got=M.tree_digest(subdir), expected=expected, **brief(third))))
+        out['cov'] = ['hold=' + hold, 'release=' + conc['release'], 'cmds=' + conc['cmd_a'] + '+' + conc['cmd_b'],
+                      'world=' + ('overlay' if spec.get('patch') else 'patchdir' if spec.get('patch_directory') else 'diffs-only') +
+                      ('/src-build' if spec.get('src_has_build', True) else '/no-src-build'),
+                      'outcome=' + '/'.join('ok' if x else 'fail' for x in (a_ok, b_ok, t_ok)),
+                      'second=' + ('finished-while-held' if b_done_while_held else 'waited' if decided else 'watchdog')]
+        out['sample'] = {'spec': spec, 'runs': [a_ok, b_ok, t_ok], 'second_run': out['cov'][-1]}
+        return out
+    finally:
+        for p in procs:
+            p.kill()
+        force_rmtree(root)
+
+
+def c_specs(tier: str, rng: random.Random) -> T.List[dict]:
+    role = G.b_default_role
+    worlds = [
+        # upstream sources with their own build file, two diffs (data file, then the build file)
+        dict(source=role(loc='url', fmt='tar.gz'), patch=None, diffs='good', diff_build=True, src_has_build=True),
+        # overlay archive + one diff, upstream without / with a build file
+        dict(source=role(loc='cache', fmt='tar'), patch=role(loc='files', fmt='zip'), diffs='good', src_has_build=False),
+        dict(source=role(loc='files', fmt='zip'), patch=role(loc='url', fmt='tar.gz'), diffs='good', src_has_build=True),
+        # patch_directory + one diff
+        dict(source=role(loc='url', fmt='tar'), patch=None, patch_directory=True, diffs='good', src_has_build=True),
+    ]
+    specs = []
+
+    def add(w: int, hold: str, release: str, cmd_a: str, cmd_b: str) -> None:
+        if hold == 'patchprog:2' and not worlds[w].get('diff_build'):
+            return
+        s = dict(worlds[w], fault=None, cmd='setup', wrap_mode='default',
+                 conc={'hold': hold, 'release': release, 'cmd_a': cmd_a, 'cmd_b': cmd_b})
+        specs.append(s)
+    if tier == 'quick':
+        add(0, 'patchprog:1', 'ok', 'setup', 'setup')
+        add(0, 'patchprog:2', 'fail', 'setup', 'setup')
+        add(1, 'patchprog:1', 'ok', 'download', 'setup')
+        add(2, 'fn:apply_patch', 'ok', 'setup', 'setup')
+        add(3, 'fn:apply_patch', 'fail', 'download', 'setup')
+        add(2, 'fn:apply_diff_files', 'fail', 'setup', 'setup')
+        add(1, 'fn:apply_patch', 'ok', 'setup', 'setup')
+        add(3, 'patchprog:1', 'fail', 'setup', 'download')
+    else:
+        for w in range(len(worlds)):
+            for hold in ('patchprog:1', 'patchprog:2', 'fn:apply_patch', 'fn:apply_diff_files'):
+                for release in ('ok', 'fail'):
+                    for cmd_a in ('setup', 'download'):
+                        for cmd_b in ('setup', 'download'):
+                            add(w, hold, release, cmd_a, cmd_b)
+    return specs
+
+
+# ====================================================================================================
 # main
 # ====================================================================================================
 def _worker(item: T.Tuple[str, dict]) -> dict:
     kind, payload = item
     try:
-        res = run_policy_world(payload) if kind == 'A' else (run_program_world(payload) if kind == 'P'
-                                                              else run_wrap_case(payload))
+        res = run_policy_world(payload) if kind == 'A' else (run_program_world(payload) if kind == 'P' else
+                                                              run_concurrent_case(payload) if kind == 'C' else
+                                                              run_wrap_case(payload))
     except Exception as e:   # harness trouble is inconclusive, never a verdict
         import traceback
         return {'kind': kind, 'counts': {}, 'violations': [], 'key': common.digest(payload), 'cov': [],
@@ -795,6 +1060,8 @@ def replay(chk: common.Check, path: str) -> int:
         res = run_policy_world(w['world'])
     elif w.get('part') == 'P':
         res = run_program_world(w['world'])
+    elif w.get('part') == 'C':
+        res = run_concurrent_case(w['spec'])
     else:
         res = run_wrap_case(w['spec'])
     mechs = sorted({m for m, _ in res['violations']})
@@ -878,7 +1145,11 @@ def main() -> int:
     items += [('B', s) for s in bspecs]
     # programs provided by a wrap file (program_names), the name spelled with and without upper-case characters
     items += [('P', w) for w in G.p_worlds(nrng, 12 if quick else 96)]
-    chk.notes['planned'] = {'A_relookup_sequences': len(relookups), 'P_program_worlds': 12 if quick else 96, 'A_cells': n_cells, 'A_static_table_cells': len(static_cells), 'A_version_cells': len(version_items), 'A_sequences': n_a - n_cells, 'B_cases': len(items) - n_a}
+    # two processes on one source tree, the first held between unpack and the end of patch/diff
+    cspecs = c_specs(chk.tier, rng)
+    items += [('C', s) for s in cspecs]
+    chk.notes['planned_concurrent_cases'] = len(cspecs)
+    chk.notes['planned'] = {'A_relookup_sequences': len(relookups), 'P_program_worlds': 12 if quick else 96, 'A_cells': n_cells, 'A_static_table_cells': len(static_cells), 'A_version_cells': len(version_items), 'A_sequences': n_a - n_cells, 'B_cases': len(items) - n_a - len(cspecs)}
 
     # run in slices so that the time budget can stop the exploration (counted, never silent)
     t0 = time.time()
@@ -903,7 +1174,7 @@ def main() -> int:
     rest = [j for j in rest if j not in set(promoted)]
     rng.shuffle(first)
     # the small directed families go to the very front: under any load they are explored
-    front = [j for j in range(len(items)) if items[j][0] == 'P' or (items[j][0] == 'A' and items[j][1].get('relookup'))]
+    front = [j for j in range(len(items)) if items[j][0] in ('P', 'C') or (items[j][0] == 'A' and items[j][1].get('relookup'))]
     fset = set(front)
     order = front + [j for j in first if j not in fset] + [j for j in rest if j not in fset]
     skipped = 0
@@ -934,8 +1205,8 @@ def main() -> int:
         for mech, wit in res['violations']:
             chk.violation(mech, wit)
     # samples: a few of each part
-    for kind in ('A', 'B', 'P'):
-        for res in [r for r in results if r['kind'] == kind and r['sample']][:(4 if kind != 'P' else 1)]:
+    for kind in ('A', 'B', 'P', 'C'):
+        for res in [r for r in results if r['kind'] == kind and r['sample']][:(4 if kind in 'AB' else 1)]:
             chk.sample(res['sample'])
 
     for name, minimum in (('monitor:lookup-begin', 100), ('monitor:fed', 50), ('monitor:do_subproject', 50),
@@ -951,12 +1222,18 @@ def main() -> int:
                           ('rule:unpack-on-verified-bytes', 50), ('rule:nodownload-no-fetch', 50),
                           ('post:failed-run-dir-absent', 50), ('post:successful-run-tree-complete', 20),
                           ('post:cache-entry-verified', 20), ('rule:documented-acquisition-succeeds', 10),
-                          ('rule:unverifiable-world-rejected', 30), ('monitor:fault', 10)):
+                          ('rule:unverifiable-world-rejected', 30), ('monitor:fault', 10),
+                          ('monitor:hold-reached', 6), ('C:held-tree-differs-from-prepared-tree', 6),
+                          ('rule:concurrent-run-waits-or-fails', 6), ('rule:accepted-tree-is-fully-prepared', 12),
+                          ('rule:configured-build-file-is-the-prepared-one', 8), ('monitor:wraplock', 12),
+                          ('post:no-half-prepared-directory-remains', 6)):
         chk.require(name, minimum)
     return chk.finish(
         rule='Part A: one case = one configuration (world x lookup sequence) keyed by its structural digest; a decision-table '
              'cell issues its lookup twice. Part B: one case = wrap world (location x corruption x recorded-hash class x '
-             'fault x command) run twice (with the fault, then without), keyed by the digest of its specification.',
+             'fault x command) run twice (with the fault, then without), keyed by the digest of its specification. '
+             'Concurrent cases: wrap world x hold point (n-th invocation of patch / entry of apply_patch / entry of '
+             'apply_diff_files) x how the held step ends x commands of the two runs; a third run follows.',
         assumptions=['system dependencies are pkg-config files only (private PKG_CONFIG_LIBDIR; cmake hidden from PATH); '
                      'for names with several detection methods every other method finds nothing (no compiler, no '
                      'config tools on PATH)',
